@@ -22,6 +22,7 @@ fn kinds() -> Vec<(&'static str, OVal, Data)> {
         ("percentage", OVal::Float("0.25".into(), "percentage"), Data::Float(0.25)),
         ("currency", OVal::Float("-3".into(), "currency"), Data::Float(-3.0)),
         ("string-attr", OVal::StrAttr("attr&<".into()), Data::String("attr&<".into())),
+        ("string-attr-without-paragraph", OVal::StrAttrBare("kept".into()), Data::String("kept".into())),
         ("boolean", OVal::Bool(true), Data::Bool(true)),
         ("date", OVal::Date("2021-03-04".into()), Data::DateTimeIso("2021-03-04".into())),
         ("time", OVal::Time("PT12H30M00S".into()), Data::DurationIso("PT12H30M00S".into())),
@@ -77,8 +78,12 @@ fn build(ch: &mut Chooser, g: &G, ka: usize, kb: usize) -> (OBook, Grid, serde_j
     let ks = kinds();
     let val = |c: u8| match c { 0 => OVal::Empty, 1 => ks[ka].1.clone(), _ => ks[kb].1.clone() };
     let exp = |c: u8| match c { 1 => ks[ka].2.clone(), _ => ks[kb].2.clone() };
+    // the whole sheet may sit far from A1: one leading run of 1040 empty cells in every row with a value (more than the
+    // 1024 columns of old spreadsheet versions), and / or one leading run of 70000 empty rows
+    let far_right: u32 = if ch.flag("leading-run-of-1040-empty-cells") { 1040 } else { 0 };
+    let far_down: u32 = if ch.flag("leading-run-of-70000-empty-rows") { 70_000 } else { 0 };
     let mut grid = Grid::new();
-    for (r, row) in g.iter().enumerate() { for (c, v) in row.iter().enumerate() { if *v != 0 { grid.insert((r as u32, c as u32), exp(*v)); } } }
+    for (r, row) in g.iter().enumerate() { for (c, v) in row.iter().enumerate() { if *v != 0 { grid.insert((r as u32 + far_down, c as u32 + far_right), exp(*v)); } } }
     // every non-empty cell carries a comment (office:annotation with its own paragraphs), which is not part of the value
     let annotate = ch.flag("cells-have-comments");
     // rows: maximal runs of equal logical rows, every composition
@@ -92,10 +97,13 @@ fn build(ch: &mut Chooser, g: &G, ka: usize, kb: usize) -> (OBook, Grid, serde_j
         while j < nrows && g[j] == g[i] { j += 1; }
         for p in encode_run(ch, "row-run-cut", j - i) {
             let cells: Vec<OVal> = g[i].iter().map(|c| val(*c)).collect();
-            rows.push(ORow { cells: encode_row(ch, &cells, annotate), repeat: p });
+            let mut enc = encode_row(ch, &cells, annotate);
+            if far_right > 0 && cells.iter().any(|c| *c != OVal::Empty) { enc.insert(0, (OCell::empty(), far_right)); }
+            rows.push(ORow { cells: enc, repeat: p });
         }
         i = j;
     }
+    if far_down > 0 { rows.insert(0, ORow { cells: vec![(OCell::empty(), 1)], repeat: far_down }); }
     match ch.choose("sheet-trailing-empty-rows", 4) {
         0 => {}
         1 => rows.push(ORow { cells: vec![(OCell::empty(), 1)], repeat: (trailing_rows as u32).max(1) }),
